@@ -40,8 +40,10 @@ Why(e) == CASE e.op = "serde" -> SerdeWhy(e)
 
 VARIABLES l, bad
 Init == l = 1 /\ bad = <<>>
+\* (a LET directly inside an action is re-evaluated by TLC at every reference; inside an operator it is cached)
+Step(b, i) == LET w == Why(Rec[i]) IN IF w = "" THEN b ELSE Append(b, [i |-> i, why |-> w])
 Next == /\ l <= Len(Rec)
-        /\ LET w == Why(Rec[l]) IN bad' = IF w = "" THEN bad ELSE Append(bad, [i |-> l, why |-> w])
+        /\ bad' = Step(bad, l)
         /\ l' = l + 1
 Spec == Init /\ [][Next]_<<l, bad>>
 Verdict == l > Len(Rec) => PrintT(<<"VERDICT", ToJson([total |-> Len(Rec), bad |-> bad])>>)
